@@ -8,7 +8,12 @@ package luaref
 // Pos records the lines (in the most recent rendering) of a node's first and last token.
 type Pos struct{ First, Last int }
 
-type Expr interface{ expr() }
+func (p *Pos) pos() *Pos { return p }
+
+type Expr interface {
+	expr()
+	pos() *Pos
+}
 
 type (
 	NilExpr   struct{ Pos }
